@@ -738,13 +738,6 @@ func main() {
 		t0 = time.Now()
 	}
 	var covered = map[string]any{}
-	finish := func() {
-		total := newStats()
-		for _, wk := range x.workers {
-			mergeStats(total, wk.st)
-		}
-		publishStats(r, total, covered)
-	}
 	x.watch.Start(120*time.Second, 48<<30, func(worker int, id int64, why string) {
 		r.Violation("hang:encode", "an Encoder call or its verification does not return: "+why, map[string]any{"kind": "hang", "worker": worker})
 	}, func() {
@@ -862,7 +855,6 @@ func main() {
 	for _, wk := range x.workers {
 		mergeStats(total, wk.st)
 	}
-	_ = finish
 	publishStats(r, total, covered)
 	r.Add("dct_blocks", dst.evals)
 	r.HistAdd("dct_pixel_error_after_forward_then_inverse", "0", dst.errHist[0])
